@@ -29,7 +29,7 @@ ID = 'C08'
 MODULE = 'PyTough.Props.C08'
 TARGETS = ['PyTough.Props.C08', 'drv_c08']
 THEOREMS = ['Props.C08.' + t for t in [
-    'consistent_of_inv', 'checkInv_iff', 'inv_empty', 'inv_step', 'inv_run', 'consistent_after_any_history',
+    'consistent_of_inv', 'checkInv_iff', 'inv_empty', 'inv_step', 'inv_run', 'inv_fromgeo', 'consistent_after_any_history',
     'rename_loses_no_block', 'rename_keeps_inv', 'grid_addition_consistent', 'embed_consistent',
     'block_index_correct', 'connection_index_correct',
     'Examples.F1_add_block_replaces_connected_block', 'Examples.F2_rocktype_replaced_while_in_use',
